@@ -416,6 +416,11 @@ def euler_oracle(h, model, phys, viol, stats, tag="C01", rtol=1e-11):
         if kind == "iterate" and o.t != prev.t:
             X = prev.x * fq
             dt = (o.t - prev.t) * ft
+            want_dt = phys.get("sp", {}).get("dt")
+            if want_dt and abs(dt - want_dt) > 1e-9 * want_dt:
+                viol.append({"oracle": tag + ".euler-step", "action": ai,
+                             "detail": "the engine advanced time by %r s in one step, the script's time step is %r s" % (dt, want_dt)})
+                return
             f, scale = model.f(X, want_scale=True)
             pred = X + dt * f
             tol = rtol * (np.abs(X) + dt * scale) + 1e-300
